@@ -1,10 +1,29 @@
 /-
   Sipsp.Proofs.NaNest — nesting and order of the sub-fields of a name-addr value (From / To / Contact /
-  P-Asserted-Identity), for EVERY input: after ParseNameAddrPVal says OK or MoreValues the display name, the URI,
-  the parameter span and the tag lie inside the value `v`, in this order, the tag inside the parameter span.
+  P-Asserted-Identity), for EVERY input (property C05, "header-specific sub-fields nest").
 
-  The proof is a loop invariant (`NnSt`, one clause per parser state) over the generic `runLoop` driver, carried
-  along with the bounds invariant `NaSafe` of SafeNA.lean.
+  Proved (all buffers within the 65,535-byte limit, all offsets, all header kinds, all inputs):
+  * `parseNameAddrPVal_nest`: a parse of one value that started at `lo` on a new object — in one call, or continued
+    over the objects returned with MoreBytes (`NnEntry`, `NnEntry_new`, `NnEntry.grow`) — and ends with OK or
+    MoreValues leaves a nested value (`NaNest`) that starts at or after `lo`; after MoreBytes the object is again a
+    legitimate argument at the returned offset.  `parseNameAddrPVal_nest_new`: the one-call form.
+  * `NaNest` / `NaNest.meaning` (unset fields are `{}` = `⟨0,0⟩`): the URI field always lies inside the
+    value `v` (for `*` it is `v` itself); the display name, if reported, starts inside `v` and ends at or before the
+    start of the URI; the parameter span, if reported, starts at or after the end of the URI and ends exactly where
+    `v` ends; the tag, if reported, lies inside the parameter span (which is then reported), hence inside `v`.
+  * message level: `parseSIPMsg_nn` (one call from the initial state), `parseSIPMsg_nn_init` (object produced by
+    Init), `parseSIPMsg_nn_schedule_init` (any chain of resumed calls from Init): after a successful ParseSIPMsg,
+    From and To are untouched (`{}`) or finished and nested, and every stored Contact and P-Asserted-Identity value is
+    nested (`HvNn`, `HvNn.meaning`); with the levels below: `parseAllContactValues_new_nn`,
+    `parseAllPAIValues_new_nn`, `parseBody_nn`, `parseHdrLine_nn`, `parseHeaders_nn`.
+  The proof is a loop invariant (`NnSt`, one clause per parser state; `na_nnCont`, `naStep_nndone`, `naEOH_nn`) over
+  the generic `runLoop` driver, carried along with the bounds invariant `NaSafe` of SafeNA.lean.
+
+  NOT proved here: that the reported spans are trimmed of white space (they are not always: the display name
+  includes the white space in front of "<"; after `;name=` + white space + "," the value and the parameter span include
+  that white space); the nesting of the fields of the value a suspended Contact / PAI *list* parse is working on
+  (message level is stated for successful parses; the chunked case goes through the one-shot equivalence
+  `C01.schedule_msg_init`); anything about the scalar results (LR, Q, Expires).
 -/
 import Sipsp.Proofs.SafeNALo
 import Sipsp.Proofs.FieldsLo
@@ -14,7 +33,7 @@ namespace Sipsp
 /-! ### the finished value -/
 
 /-- **nesting and order of the fields of a finished name-addr value.** Unset fields are `⟨0,0⟩`.
-    A finished value always has its URI field set (for `*` it is the value itself). -/
+    The URI field of a finished value always lies inside the value (for `*` it is the value itself). -/
 structure NaNest (pf : PFromBody) : Prop where
   /-- the URI lies inside the value -/
   uriL : pf.v.offs ≤ pf.uri.offs
@@ -1025,6 +1044,14 @@ example : (parseNameAddrPVal HdrContact "sip:a@b ;tag=1 , <sip:c>\r\n\r\n".toUTF
     (parseNameAddrPVal HdrContact "sip:a@b ;tag=1 , <sip:c>\r\n\r\n".toUTF8.data 0 {}).2.2.params = ⟨9, 5⟩ ∧
     (parseNameAddrPVal HdrContact "sip:a@b ;tag=1 , <sip:c>\r\n\r\n".toUTF8.data 0 {}).2.2.tag = ⟨13, 1⟩ ∧
     (parseNameAddrPVal HdrContact "sip:a@b ;tag=1 , <sip:c>\r\n\r\n".toUTF8.data 0 {}).2.2.v = ⟨0, 14⟩ := by
+  decide +kernel
+
+/-- test (behaviour of the code, not a theorem about trimming): after `;tag=` + white space + "," the value and the
+    parameter span run up to the comma, i.e. include the white space (byte 18); the empty second `tag` keeps the first -/
+example : (parseNameAddrPVal HdrContact "sip:a@b;tag=1;tag= ,x\r\n\r\n".toUTF8.data 0 {}).2.1 = Err.moreValues ∧
+    (parseNameAddrPVal HdrContact "sip:a@b;tag=1;tag= ,x\r\n\r\n".toUTF8.data 0 {}).2.2.v = ⟨0, 19⟩ ∧
+    (parseNameAddrPVal HdrContact "sip:a@b;tag=1;tag= ,x\r\n\r\n".toUTF8.data 0 {}).2.2.params = ⟨8, 11⟩ ∧
+    (parseNameAddrPVal HdrContact "sip:a@b;tag=1;tag= ,x\r\n\r\n".toUTF8.data 0 {}).2.2.tag = ⟨12, 1⟩ := by
   decide +kernel
 
 /-- test: `*` — the URI field is the value itself -/
